@@ -36,7 +36,9 @@ VNextSlot(pre, op) ==      \* the new value of slot op.o + 1 for an operation th
   \* (the *_sub_* operations construct / assign from a Variant over other types - here <B, A> - holding an A, a B or
   \* nothing: "each element of OtherTypes must be convertible to an element of Types")
   CASE op.op \in {"new_empty", "new_ev", "assign_ev", "new_sub_empty", "assign_sub_empty"} -> VEmpty
-    [] op.op \in {"new_a", "assign_a", "new_c", "assign_c", "new_sub_a", "assign_sub_a"} -> [i |-> 0, v |-> op.val]
+    \* (C and T are not alternatives but convert to A; T is a plain nothrow-copyable value)
+    [] op.op \in {"new_a", "assign_a", "new_c", "assign_c", "new_t", "assign_t", "new_sub_a", "assign_sub_a"} -> [i |-> 0, v |-> op.val]
+    [] op.op = "assign_own" -> pre[o]       \* assignment from the object's own active element: nothing changes
     [] op.op \in {"new_i", "assign_i"} -> [i |-> 1, v |-> op.val]
     [] op.op \in {"new_b", "assign_b", "new_sub_b", "assign_sub_b"} -> [i |-> 2, v |-> op.val]
     \* IfAnyOf<A>::Swap / Take act on the value only when an A is active; the alternative never changes
@@ -51,7 +53,7 @@ VNextSlot(pre, op) ==      \* the new value of slot op.o + 1 for an operation th
 VPre(pre, op) ==           \* is the operation applicable (the generator may emit inapplicable ones: ignored)
   LET o == op.o + 1
       p == Def(op, "p", 0) + 1 IN
-  /\ (op.op \in {"new_empty", "new_ev", "new_a", "new_b", "new_c", "new_i", "new_copy", "new_move",
+  /\ (op.op \in {"new_empty", "new_ev", "new_a", "new_b", "new_c", "new_t", "new_i", "new_copy", "new_move",
                   "new_sub_a", "new_sub_b", "new_sub_empty"}) <=> pre[o] = None
   /\ (op.op \in {"new_copy", "new_move", "assign_copy", "assign_move"}) => pre[p] # None
 
@@ -93,7 +95,7 @@ ONextSlot(pre, op) ==
   CASE op.op \in {"new_empty", "clear"} -> OEmpty
     [] op.op \in {"new_val", "new_rval", "assign_val", "assign_rval"} -> OVal(op.val)
     [] op.op \in {"new_copy", "new_move", "assign_copy", "assign_move"} -> pre[p]
-    [] op.op = "take" -> pre[o]
+    [] op.op \in {"take", "assign_own"} -> pre[o]
     [] op.op = "destroy" -> None
     \* assignment from an Optional of a different element type: the value is converted, an empty source empties
     [] op.op \in {"assign_conv_move", "assign_conv_copy"} -> IF op.srcempty THEN OEmpty ELSE OVal(op.val)
@@ -102,7 +104,7 @@ OPre(pre, op) ==
       p == Def(op, "p", 0) + 1 IN
   /\ (op.op \in {"new_empty", "new_val", "new_rval", "new_copy", "new_move"}) <=> pre[o] = None
   /\ (op.op \in {"new_copy", "new_move", "assign_copy", "assign_move"}) => pre[p] # None
-  /\ op.op = "take" => ~pre[o].e
+  /\ op.op \in {"take", "assign_own"} => ~pre[o].e
 \* an object whose value was moved out still is "empty or holds exactly one alive value"
 OAnyValid(pre, post) == post # None /\ (post.e \/ ~pre.e)
 OPost(pre, op, post, threw) ==
@@ -135,14 +137,14 @@ RNextSlot(pre, op) ==
     [] op.op \in {"new_val", "new_rval", "assign_val", "assign_rval"} -> [s |-> "val", v |-> op.val]
     [] op.op \in {"new_err", "assign_err"} -> IF op.val = 0 THEN REmpty ELSE [s |-> "err", c |-> op.val]   \* None is not an error
     [] op.op \in {"new_copy", "new_move", "assign_copy", "assign_move"} -> pre[p]
-    [] op.op = "take" -> pre[o]
+    [] op.op \in {"take", "assign_own"} -> pre[o]
     [] op.op = "destroy" -> None
 RPre(pre, op) ==
   LET o == op.o + 1
       p == Def(op, "p", 0) + 1 IN
   /\ (op.op \in {"new_empty", "new_val", "new_rval", "new_err", "new_copy", "new_move"}) <=> pre[o] = None
   /\ (op.op \in {"new_copy", "new_move", "assign_copy", "assign_move"}) => pre[p] # None
-  /\ op.op = "take" => pre[o].s = "val"
+  /\ op.op \in {"take", "assign_own"} => pre[o].s = "val"
 RAnyValid(pre, post) == post # None /\ (post.s # "val" \/ pre.s = "val") /\ (post.s = "err" => (pre.s = "err" /\ post.c = pre.c))
 RPost(pre, op, post, threw) ==
   LET o == op.o + 1
